@@ -331,6 +331,11 @@ impl Table {
         let page = self.pages[page.0].assert_type::<T>();
         let slot = &page.data()[slot.0];
 
+        #[cfg(salsa_verif)]
+        crate::verif_trace::ts(
+            "memos",
+            format_args!("{}g{}", id.index(), id.generation()),
+        );
         // SAFETY: The caller is required to pass the `current_revision`.
         let memos = unsafe { &*T::memos(slot, current_revision) };
 
@@ -350,6 +355,11 @@ impl Table {
     pub unsafe fn dyn_memos(&self, id: Id, current_revision: Revision) -> MemoTableWithTypes<'_> {
         let (page, slot) = split_id(id);
         let page = &self.pages[page.0];
+        #[cfg(salsa_verif)]
+        crate::verif_trace::ts(
+            "memos",
+            format_args!("{}g{}", id.index(), id.generation()),
+        );
         // SAFETY: We supply a proper slot pointer and the caller is required to pass the `current_revision`.
         let memos = unsafe { &*(page.slot_vtable.memos)(page.get(slot), current_revision) };
         // SAFETY: The `Page` keeps the correct memo types.
